@@ -204,7 +204,7 @@ theorem row_step (cast : CastFn) (H : Handler) (fields : List PV) (res : PV) (i 
   rw [exec, exec]
   simp only [evalE, Env.set, bind, Except.bind]
   rw [exec, exec]
-  simp only [evalE, Env.get, List.lookup, hsf, iterOf, bind, Except.bind, show ("row" == "row") = true by decide, show ("row" == "okay") = false by decide, show ("row" == "i") = false by decide, show ("row" == "resource") = false by decide, show ("row" == "field") = false by decide, show ("row" == "e") = false by decide, show ("row" == "$call1") = false by decide, show ("row" == "schema_fields") = false by decide, show ("okay" == "row") = false by decide, show ("okay" == "okay") = true by decide, show ("okay" == "i") = false by decide, show ("okay" == "resource") = false by decide, show ("okay" == "field") = false by decide, show ("okay" == "e") = false by decide, show ("okay" == "$call1") = false by decide, show ("okay" == "schema_fields") = false by decide, show ("i" == "row") = false by decide, show ("i" == "okay") = false by decide, show ("i" == "i") = true by decide, show ("i" == "resource") = false by decide, show ("i" == "field") = false by decide, show ("i" == "e") = false by decide, show ("i" == "$call1") = false by decide, show ("i" == "schema_fields") = false by decide, show ("resource" == "row") = false by decide, show ("resource" == "okay") = false by decide, show ("resource" == "i") = false by decide, show ("resource" == "resource") = true by decide, show ("resource" == "field") = false by decide, show ("resource" == "e") = false by decide, show ("resource" == "$call1") = false by decide, show ("resource" == "schema_fields") = false by decide, show ("field" == "row") = false by decide, show ("field" == "okay") = false by decide, show ("field" == "i") = false by decide, show ("field" == "resource") = false by decide, show ("field" == "field") = true by decide, show ("field" == "e") = false by decide, show ("field" == "$call1") = false by decide, show ("field" == "schema_fields") = false by decide, show ("e" == "row") = false by decide, show ("e" == "okay") = false by decide, show ("e" == "i") = false by decide, show ("e" == "resource") = false by decide, show ("e" == "field") = false by decide, show ("e" == "e") = true by decide, show ("e" == "$call1") = false by decide, show ("e" == "schema_fields") = false by decide, show ("$call1" == "row") = false by decide, show ("$call1" == "okay") = false by decide, show ("$call1" == "i") = false by decide, show ("$call1" == "resource") = false by decide, show ("$call1" == "field") = false by decide, show ("$call1" == "e") = false by decide, show ("$call1" == "$call1") = true by decide, show ("$call1" == "schema_fields") = false by decide, show ("schema_fields" == "row") = false by decide, show ("schema_fields" == "okay") = false by decide, show ("schema_fields" == "i") = false by decide, show ("schema_fields" == "resource") = false by decide, show ("schema_fields" == "field") = false by decide, show ("schema_fields" == "e") = false by decide, show ("schema_fields" == "$call1") = false by decide, show ("schema_fields" == "schema_fields") = true by decide]
+  simp only [evalE, Env.get, List.lookup, hsf, iterLazy_list, bind, Except.bind, show ("row" == "row") = true by decide, show ("row" == "okay") = false by decide, show ("row" == "i") = false by decide, show ("row" == "resource") = false by decide, show ("row" == "field") = false by decide, show ("row" == "e") = false by decide, show ("row" == "$call1") = false by decide, show ("row" == "schema_fields") = false by decide, show ("okay" == "row") = false by decide, show ("okay" == "okay") = true by decide, show ("okay" == "i") = false by decide, show ("okay" == "resource") = false by decide, show ("okay" == "field") = false by decide, show ("okay" == "e") = false by decide, show ("okay" == "$call1") = false by decide, show ("okay" == "schema_fields") = false by decide, show ("i" == "row") = false by decide, show ("i" == "okay") = false by decide, show ("i" == "i") = true by decide, show ("i" == "resource") = false by decide, show ("i" == "field") = false by decide, show ("i" == "e") = false by decide, show ("i" == "$call1") = false by decide, show ("i" == "schema_fields") = false by decide, show ("resource" == "row") = false by decide, show ("resource" == "okay") = false by decide, show ("resource" == "i") = false by decide, show ("resource" == "resource") = true by decide, show ("resource" == "field") = false by decide, show ("resource" == "e") = false by decide, show ("resource" == "$call1") = false by decide, show ("resource" == "schema_fields") = false by decide, show ("field" == "row") = false by decide, show ("field" == "okay") = false by decide, show ("field" == "i") = false by decide, show ("field" == "resource") = false by decide, show ("field" == "field") = true by decide, show ("field" == "e") = false by decide, show ("field" == "$call1") = false by decide, show ("field" == "schema_fields") = false by decide, show ("e" == "row") = false by decide, show ("e" == "okay") = false by decide, show ("e" == "i") = false by decide, show ("e" == "resource") = false by decide, show ("e" == "field") = false by decide, show ("e" == "e") = true by decide, show ("e" == "$call1") = false by decide, show ("e" == "schema_fields") = false by decide, show ("$call1" == "row") = false by decide, show ("$call1" == "okay") = false by decide, show ("$call1" == "i") = false by decide, show ("$call1" == "resource") = false by decide, show ("$call1" == "field") = false by decide, show ("$call1" == "e") = false by decide, show ("$call1" == "$call1") = true by decide, show ("$call1" == "schema_fields") = false by decide, show ("schema_fields" == "row") = false by decide, show ("schema_fields" == "okay") = false by decide, show ("schema_fields" == "i") = false by decide, show ("schema_fields" == "resource") = false by decide, show ("schema_fields" == "field") = false by decide, show ("schema_fields" == "e") = false by decide, show ("schema_fields" == "$call1") = false by decide, show ("schema_fields" == "schema_fields") = true by decide]
   rcases fields_loop cast H fields res i fields row true _ out hv with ⟨e, he, hvf⟩ | ⟨env1, row1, okay1, he, hvf, hinv⟩
   · left; exact ⟨e, by simp [he], hvf⟩
   · right
@@ -241,7 +241,7 @@ theorem Tie_vloop (cast : CastFn) (H : Handler) (fields : List PV) (res : PV) (r
     (by simp [BaseEnv, List.lookup, show ("resource" == "iterator") = false by decide,
           show ("resource" == "schema_fields") = false by decide, show ("schema_fields" == "iterator") = false by decide])
   rw [loop_body_is, exec]
-  simp only [evalE, evalArgs, applyFn, builtinOp, opEnumerate, Env.get, List.lookup, iterOf, bind, Except.bind, Except.map,
+  simp only [evalE, evalArgs, applyFn, builtinOp, opEnumerate, Env.get, List.lookup, iterOf, iterLazy_list, bind, Except.bind, Except.map,
     show ("iterator" == "iterator") = true by decide]
   simp only [Except.map, List.nil_append] at hl
   revert hl
